@@ -16,7 +16,9 @@ for f in ['patch.diff', 'NOTES.md'] + demo_src:
     if os.path.exists(os.path.join(out_dir, f)) and os.path.realpath(out_dir) != os.path.realpath(sd):
         shutil.copy(os.path.join(out_dir, f), os.path.join(sd, f))
 crate_dir = {'duckscript': 'duckscript', 'duckscriptsdk': 'duckscript_sdk', 'duckscript_cli': 'duckscript_cli'}[crate]
-wt = '/tmp/wt_seed'
+wt = os.environ.get('WT_SEED', '/tmp/wt_seed')
+# the build output of the scratch tree lives next to it and is reused by the next seed confirmed in the same lane
+os.environ['CARGO_TARGET_DIR'] = wt + '_target'
 def sh(cmd, cwd=None, timeout=3000):
     p = subprocess.run(cmd, shell=True, cwd=cwd, stdout=subprocess.PIPE, stderr=subprocess.STDOUT, text=True, timeout=timeout)
     return p.returncode, p.stdout
